@@ -283,6 +283,29 @@ def _series_overload_cases():
                         nodes.append(("L", k, [top], dict(p)))
                     out.append({"spec": _spec2(nodes), "vtol": 1e-6, "itol": 1e-6,
                                 "maxiter": 300, "_tag": [el, ld, f, sign]})
+                    if ld == "ILoad" and f in (1.2, 2.0):
+                        # the same overload at every small maxiter (the result must never be
+                        # returned, whichever sweep happens to be the last one allowed)
+                        for mi in range(1, 9):
+                            out.append({"spec": _spec2(nodes), "vtol": 1e-6, "itol": 1e-6,
+                                        "maxiter": mi, "_tag": [el, ld, f, sign, mi]})
+    # a mux running from its second input (first input dead), overloaded by a constant current
+    for f in (0.5, 0.999, 1.0, 1.2, 2.0):
+        for sign in (1.0, -1.0):
+            for dead in ("zero_volt", "dropout"):
+                for rs in ("scalar", "list"):
+                    r = f * V / I
+                    first = [("S0", "Source", [], {"vo": 0.0 if dead == "zero_volt" else sign * V})]
+                    inp0 = "S0"
+                    if dead == "dropout":
+                        first.append(("Reg0", "LinReg", ["S0"], {"vo": 2 * V, "vdrop": 1.5 * V}))
+                        inp0 = "Reg0"
+                    nodes = first + [
+                        ("S1", "Source", [], {"vo": sign * V}),
+                        ("X", "PMux", [inp0, "S1"], {"rs": r if rs == "scalar" else [0.0, r]}),
+                        ("L", "ILoad", ["X"], {"ii": I})]
+                    out.append({"spec": _spec2(nodes), "vtol": 1e-6, "itol": 1e-6,
+                                "maxiter": 300, "_tag": ["mux2", dead, rs, f, sign]})
     return out
 
 
